@@ -93,6 +93,21 @@ def leaf_nonneg(value, port):
     return 'negative value' if _neg(value) else None
 
 
+def leaf_pos(value, port):
+    """Port validator 'pos' (Ports!ValidatorDomain = int): uses its argument as a number, as the validator of an int port may.
+    Rejects 0 and negative ints; for a str / dict / None the comparison raises TypeError."""
+    return None if value > 0 else 'has to be positive'
+
+
+def leaf_word(value, port):
+    """Port validator 'word' (domain str): uses its argument as a string.  Rejects ''; anything that is not a str has no
+    `isalpha` (AttributeError)."""
+    return None if value.isalpha() else 'has to be a word'
+
+
+LEAF_VALIDATORS = {'none': None, 'nonneg': leaf_nonneg, 'pos': leaf_pos, 'word': leaf_word}
+
+
 def ns_nonneg(values, port):
     """Namespace validator 'nonneg': rejects a mapping one of whose direct values is a negative int."""
     if not isinstance(values, collections.abc.Mapping):
@@ -118,7 +133,7 @@ def _declare(spec, kind, node, prefix):
         path = name if not prefix else prefix + '.' + name
         if p['node'] == 'leaf':
             kw = dict(required=p['dreq'], valid_type=TYPES[p['vt']],
-                      validator=leaf_nonneg if p['val'] == 'nonneg' else None)
+                      validator=LEAF_VALIDATORS[p['val']])
             if kind == 'input':
                 kw.update(_default(p))
                 spec.input(path, **kw)
@@ -304,8 +319,8 @@ def run_c12(tree, row):
             obs['result'] = 'raised %r' % (e,)
         if obs['result'] != pyval(want['result']):
             diffs.append((tag + 'result()', repr(pyval(want['result'])), repr(obs['result'])))
-        if obs['state'] != 'FINISHED':
-            diffs.append((tag + 'state', 'FINISHED', obs['state']))
+        if obs['state'] != want['state']:
+            diffs.append((tag + 'state', want['state'], obs['state']))
         obs['spec_ports'] = list(P.spec().outputs.keys())
         if obs['spec_ports'] != list(want['ports']):
             diffs.append((tag + 'top-level ports of the class output spec afterwards', repr(list(want['ports'])),
